@@ -18,6 +18,7 @@ META = {
     "assumptions": ["a four-digit hex value is < 0x10000", "Char_T has the width its specialisation selects"],
 }
 META["explanation"] += " " + 'TB-utf additionally: the dispatcher Unicode::ToUTF forwards its code point to the encoder unchanged; TB-recombine follows locals of the pairing block.'
+META["explanation"] += " " + '(BORROW) no raw pointer into the output stream outlives a growth of the stream in the encoders and in UnEscape.'
 
 UNICODE_MAX = 0x10FFFF
 
@@ -495,7 +496,9 @@ def rule_surrogate(ctx, m):
         args = ue.call_args(c)
         ok = len(args) == 2 and ue.nodes[ue.strip(args[0])].get("d") == code_d["d"]
         r3.ob(ue.q, ue.text(c), ok, "ToUTF receives the decoded code", ue.loc(c), nontrivial=False)
-    return [r, r2, r3]
+    # the encoders write through the stream's own appenders; a raw pointer into the stream must not outlive a growth
+    from rules.borrow import rule_borrow
+    return [r, r2, r3, rule_borrow(ctx, m, files=["Unicode.hpp", "JSONUtils.hpp"], allow_empty=True)]
 
 
 def rule_hex(ctx, m):
